@@ -564,7 +564,60 @@ def rule_every_step_attempted(ctx, R="C11/every-step-attempted"):
                   "%s can be skipped: a path through PtraceDumper::init does not call it (whatever the earlier steps reported, the later ones must still be tried)" % step.split("::")[-1])
 
 
+AUXV_OWN_STEP = ("linux::dso_debug::write_dso_debug_stream",)
+
+
+def _tests_auxv_presence(a):
+    """the atom is the presence test of an auxv getter's result, directly or through Option/Result adapters (a condition on what a
+    later call makes of the value, e.g. a failed conversion of a value that IS there, is not)"""
+    e = strip(a)
+    for _ in range(12):
+        if not isinstance(e, tuple) or not e:
+            return False
+        if e[0] == "call" and "AuxvDumpInfo::get_" in e[1]:
+            return True
+        if e[0] in ("discr", "try", "okval", "some", "residual", "ref", "deref") and len(e) > 1:
+            e = strip(e[1])
+        elif e[0] == "call" and e[1].split("::")[-1] in ("map", "copied", "cloned", "ok_or", "ok_or_else", "as_ref", "and_then", "branch", "filter", "is_some", "is_none", "ok", "map_err", "unwrap_or", "unwrap_or_default") and e[2]:
+            e = strip(e[2][0])
+        else:
+            return False
+    return False
+
+
+def rule_absent_auxv_tolerated(ctx, R="C11/absent-auxv-tolerated"):
+    """`absent auxv values ... it still succeeds with all other streams intact`: an auxv value is optional everywhere it is consumed.
+    Outside the linker-debug step (whose own failure is a reported soft error), no failure exit of a function that asks AuxvDumpInfo
+    for a value is conditioned on that value being there: a target without AT_SYSINFO_EHDR (vdso=0, gVisor, qemu-user) or AT_ENTRY
+    still gets its mappings, and with them its modules, stacks and memory list."""
+    from engine.paths import conditions
+    n = 0
+    for b in ctx.prog.bodies:
+        if b.short.startswith("bin::") or "::tests::" in b.short or "::test::" in b.short:
+            continue
+        sites = list(b.calls(lambda c: "AuxvDumpInfo::get_" in (c.short or "")))
+        if not sites:
+            continue
+        fn = b.short.split("::{closure")[0]
+        if fn in AUXV_OWN_STEP:
+            ctx.ok(R, ("own-step", fn.split("::")[-1]), b.where(sites[0][0]), "%s consumes auxv values inside its own best-effort step (a missing value is that step's reported soft error)" % fn.split("::")[-1], nontrivial=False)
+            continue
+        o = Origin(b)
+        ex = Exits(b)
+        n += len(sites)
+        bad = []
+        for eb in sorted(ex.err_blocks()):
+            dnf = conditions(b, eb, origin=o, relevant=_tests_auxv_presence)
+            for c in dnf or []:
+                for (q, v) in c:
+                    bad.append((b.where(eb), show(q)[:80]))
+        ctx.check(not bad, R, ("consumer", fn.split("::")[-1]), b.where(sites[0][0]), "%s fails for no reason that depends on an auxv value being present" % fn.split("::")[-1],
+                  "%s gives up (%s) depending on %s: a target whose auxv lacks the value loses everything this function produces, although the dump still reports success" % (fn.split("::")[-1], bad[0][0] if bad else "", bad[0][1] if bad else ""))
+    ctx.floor(R, "consumers of optional auxv values outside the linker-debug step", n, 2)
+
+
 def run(ctx):
+    rule_absent_auxv_tolerated(ctx)
     rule_every_step_attempted(ctx)
     rule_discarded_results(ctx)
     rule_soft_errors_serialisable(ctx)
@@ -581,4 +634,6 @@ def run(ctx):
     # the stream is attempted in every dump: its writer is on every success path of generate_dump (same rule instance as C01/every-stream-attempted)
     from rules import c01 as _c01
     _c01.rule_stream_attempted(ctx, R="C11/stream-attempted", only=("minidump_writer::write_soft_errors",))
-
+    # the stream reaches the caller's file where the directory says, wherever in the destination the dump starts (rules/families.py)
+    from rules import families as _famd
+    _famd.destination(ctx, "C11")
